@@ -98,7 +98,7 @@ LinesProg(c) ==
   IN [p |-> pre \o f \o <<Empty>> \o SmallFunc(4), line |-> Len(pre) + Len(f), target |-> f[Len(f)]]
 
 (* ---- functions, parameters, variables ------------------------------------------------------------------------ *)
-FuncsCases == {[lim |-> "funcs", n |-> n, inter |-> i] : n \in 2..11, i \in {"none", "protos", "comments"}}
+FuncsCases == {[lim |-> "funcs", n |-> n, inter |-> i] : n \in 2..11, i \in {"none", "protos", "comments", "arrays"}}
 FuncsProg(c) ==
   LET RECURSIVE Bld(_)
       Bld(i) == IF i > c.n THEN <<>>
@@ -107,7 +107,9 @@ FuncsProg(c) ==
                        \o SmallFunc(i) \o Bld(i + 1)
       protos == IF c.inter = "protos" THEN <<Line("proto", "IsFuncPrototype", <<L("int", 3), TAB1, Slot("f", 5, 1), L("(void);", 7)>>),
                                               Line("proto", "IsFuncPrototype", <<L("int", 3), TAB1, Slot("f", 5, 2), L("(void);", 7)>>), Empty>> ELSE <<>>
-  IN [p |-> HeaderEmpty \o protos \o Bld(1), line |-> 0, target |-> Empty]
+      (* file-scope statements that look like the beginning of a function (parentheses after a name) but are none *)
+      arrays == IF c.inter = "arrays" THEN <<GlobalLine(1, 2, 11, 0, 3, 1, 3), GlobalLine(4, 1, 11, 0, 6, 2, 4), Empty>> ELSE <<>>
+  IN [p |-> HeaderEmpty \o protos \o arrays \o Bld(1), line |-> 0, target |-> Empty]
 
 (* shape: "plain" or a callback with k parameters of its own as parameter number min(2, n): its inner commas are not *)
 (* parameters of the function                                                                                          *)
